@@ -466,7 +466,7 @@ pub fn run(ctx: &Ctx) -> Report {
     rep.evidence.assumptions = vec![
         "syn 2 (full) is the fast proxy for Rust's expression grammar; a sample is cross-validated against rustc's `$e:expr` matcher and syn-vs-rustc disagreements are excluded".into(),
     ];
-    let n = ctx.tier.pick(60_000usize, 1_000_000);
+    let n = ctx.tier.pick(200_000usize, 1_500_000);
     let mut runner = ctx.runner(0);
     let dice = proptest::collection::vec(proptest::num::u16::ANY, 200..=200);
     let cases: Vec<ListCase> = draw(&mut runner, &dice, n).into_iter().map(|t| build(&mut Dice::new(t.current()))).collect();
